@@ -46,6 +46,7 @@ def dispatch (line : String) : String :=
   | "pretty" :: args => Driver.PrintD.handlePretty args
   | "ignoretail" :: args => Driver.ParseWfD.handleIgnoreTail args
   | "shellvisitdoc" :: args => Driver.ParseWfD.handleShellVisitDoc args
+  | "callsrun" :: args => Driver.ParseWfD.handleCallsRun args
   | "cron" :: args => Driver.CronD.handle args
   | "sanitize" :: args => Driver.RenderD.handleSanitize args
   | "exproffsets" :: args => Driver.RenderD.handleExprOffsets args
